@@ -133,6 +133,7 @@ static int apply(qhashtbl_t *t, model_t *m, const op_t *op, int check, const cha
             while (t->getnext(t, &o, false) && n < op->v) n++;
             int id = keyid(o.name); if (id < 0) { if (check) vc_viol("walk:unknown-key", "%s: walk returned a key that is not stored", after); break; }
             if (op->k == 0) { bool r = t->remove(t, o.name); if (check && !r) vc_viol("map:remove-result", "%s: remove(key string of the element itself) returned false", after); m->present[id] = 0; }
+            else if (op->k == 2) { bool r = t->put(t, KEYS[id], o.data, o.size); if (check && !r) vc_viol("map:put-failed", "%s: put(value buffer of the element itself) returned false", after); }
             else { bool r = t->putstr(t, o.name, "hello"); if (check && !r) vc_viol("map:put-failed", "%s: putstr(key string of the element itself) returned false", after); m->present[id] = 1; m->val[id] = 1; }
             break;
         }
@@ -191,7 +192,7 @@ static void setup(void) {
     for (int k = 0; k < U; k++) OPS[NOPS++] = (op_t){OP_REMOVE, k, 0, "qhashtbl_remove"};
     OPS[NOPS++] = (op_t){OP_CLEAR, 0, 0, "qhashtbl_clear"};
     for (int j = 1; j <= 3; j++) for (int k = 0; k < U; k++) OPS[NOPS++] = (op_t){OP_SCANREMOVE, k, j, "qhashtbl_getnext"};
-    for (int j = 0; j < 2; j++) { OPS[NOPS++] = (op_t){OP_ALIAS, 0, j, "qhashtbl_remove"}; OPS[NOPS++] = (op_t){OP_ALIAS, 1, j, "qhashtbl_putstr"}; }
+    for (int j = 0; j < 2; j++) { OPS[NOPS++] = (op_t){OP_ALIAS, 0, j, "qhashtbl_remove"}; OPS[NOPS++] = (op_t){OP_ALIAS, 1, j, "qhashtbl_putstr"}; OPS[NOPS++] = (op_t){OP_ALIAS, 2, j, "qhashtbl_put"}; }
     snprintf(SP.prefix, sizeof SP.prefix, "hashtbl:%d:%d:%d:", RANGE, U, NV);
     SP.nops = NOPS; SP.label = op_label; SP.transition = transition; SP.initial = initial;
 }
